@@ -339,6 +339,11 @@ impl SimCtx {
                 };
                 match res { Ok(id) => { self.recorders.insert(id, log); id.to_string() } Err(_) => "fail".into() }
             }
+            ["nulldev", ports] => {
+                let mut ps = vec![];
+                if *ports != "-" { for p in ports.split(',') { let Some(p) = h(p) else { return "bad-op".into() }; ps.push(p); } }
+                match self.sim.device_handler.add_device(lc3_ensemble::sim::device::NullDevice, &ps) { Ok(id) => id.to_string(), Err(_) => "fail".into() }
+            }
             ["rmdev", id] => {
                 let Ok(id) = id.parse::<u16>() else { return "bad-op".into() };
                 self.sim.device_handler.remove_device(id);
